@@ -252,6 +252,14 @@ class Interp:
         if op == 'or':
             a = self.ev(ea, c)
             return a if truth(a) else self.ev(eb, c)
+        # literal operands are type-checked when the overload is chosen, before anything is evaluated
+        for x in (ea, eb):
+            if x[0] in ('lit', 'kw'):
+                v = x[1]
+                if (v is None or isinstance(v, bool)) and op in ('add', 'sub', 'mul'):
+                    raise NoMatchingFunctionException(op)
+                if isinstance(v, str) and op == 'sub':
+                    raise NoMatchingFunctionException(op)
         a = self.ev(ea, c)
         b = self.ev(eb, c)
         return self.binop(op, a, b)
@@ -322,7 +330,7 @@ class Interp:
 
     def index(self, e, c):
         args = e[2]
-        if len(args) not in (1, 2):
+        if len(args) not in (1, 2) or e[1][0] in ('lit', 'kw'):
             raise NoMatchingFunctionException('#indexer')
         recv = self.ev(e[1], c)
         vals = [data(self.ev(a, c)) for a in args]
@@ -568,6 +576,8 @@ class Interp:
             return recv.d.get(k, default)
         if f == 'unpack':
             src = need_iterable()
+            if any(a[0] == 'lit' and not isinstance(a[1], str) for a in args):
+                raise bad(f)
             names = [data(self.ev(a, c)) for a in args]
             if not all(isinstance(x, str) for x in names):
                 raise bad(f)
